@@ -99,7 +99,7 @@ def run_case(case):
         pels.append(pel)
     # junk
     junk = []
-    kinds = rng.sample(dirrun.JUNK_KINDS, rng.randint(1, 4))
+    kinds = rng.sample(dirrun.JUNK_KINDS, rng.randint(2, 5))
     for j, kind in enumerate(kinds):
         src = rng.choice(pels)
         data = dirrun.pce_size_junk(rng) if kind == 'pceSize' else dirrun.make_junk(rng, kind, src)
